@@ -2,8 +2,8 @@
    max_size_hard_limit (LRU.reserve answers EInsufficient = 507) is answered, on every write path, with
    the status the adapter derives from that error class, and the resulting state is exactly the one
    the refused reservation left (Proofs/LRU_limit: same entries, same accounting, same backlog).
-   Two paths do NOT hand the retryable class on (as the code is): SpliceBlob answers Unknown and
-   FetchBlob NOT_FOUND; they are stated as they are. *)
+   (SpliceBlob and FetchBlob used to drop the class — Unknown resp. NOT_FOUND; repaired, and kept as
+   regression cases in the driver and in Front_examples.) *)
 From BR Require Import Base.Prelude Model.LRU Proofs.LRU_inv Proofs.LRU_limit Model.Disk Proofs.Disk_ack
   Model.Front Proofs.Front_base Proofs.Front_ack Proofs.Front_limit.
 Open Scope Z_scope.
@@ -115,14 +115,14 @@ Section paths.
     rewrite HP. reflexivity.
   Qed.
 
-  (* SpliceBlob: AS THE CODE IS, Put's error class is dropped: Unknown (not retryable) *)
+  (* SpliceBlob whose chunks were all read: gRPCErrCode(err, Unknown) *)
   Lemma splice_disk_refusal d dfn cs h s computed concat_ok cid rnd total d2 d3 d' e :
     (dfn = 0 \/ dfn = 1) -> cs <> [] -> check_chunks cs 0 = Some total -> total = s -> 0 < s ->
     (fc_grpc_max c > 0 -> s <= fc_grpc_max c) -> h <> emptySha256 -> hash_re h = true ->
     disk_contains c d CAS h s = (d2, false, -1) ->
     feed_chunks c d2 cs 0 = (d3, s, None) ->
     disk_put c d3 CAS h s (mkStream cid s false concat_ok s) rnd = (d', Some e) ->
-    splice c d dfn cs (Some (h, s)) computed concat_ok cid rnd = (d', SErr EInternal).
+    splice c d dfn cs (Some (h, s)) computed concat_ok cid rnd = (d', SErr (grpc_code e EInternal)).
   Proof.
     intros HD HC HK HT HS HM HE HRE HCo HF HP. unfold splice.
     replace ((dfn =? 0) || (dfn =? 1)) with true by (destruct HD; subst; reflexivity). cbn [negb].
@@ -135,15 +135,22 @@ Section paths.
     replace (total =? s) with true by lia. cbn [negb]. rewrite HCo, HF, HP. reflexivity.
   Qed.
 
-  (* FetchBlob: AS THE CODE IS, a refused store makes the fetch of that URI "fail": NOT_FOUND *)
+  (* FetchBlob: a store refused for lack of space ends the call with RESOURCE_EXHAUSTED (no further URI
+     is tried); a store refused for another reason moves on to the next URI *)
   Lemma fetch_item_disk_refusal d u h d' e :
     up_ok u = true -> 0 <= up_cl u ->
     disk_put c d CAS h (up_cl u) (stream_of (up_body u)) (up_rnd u) = (d', Some e) ->
-    fetch_item c d u (Some h) = (d', None).
+    fetch_item c d u (Some h) = (d', Err e).
   Proof.
     intros HO HL HP. unfold fetch_item. rewrite HO. cbn [negb]. replace (up_cl u <? 0) with false by lia.
     rewrite HP. reflexivity.
   Qed.
+
+  Lemma fetch_uris_disk_refusal d u t h d' :
+    up_ok u = true -> 0 <= up_cl u ->
+    disk_put c d CAS h (up_cl u) (stream_of (up_body u)) (up_rnd u) = (d', Some EInsufficient) ->
+    fetch_uris c d (u :: t) (Some h) = (d', SErr EInsufficient, None).
+  Proof. intros HO HL HP. cbn [fetch_uris]. rewrite (fetch_item_disk_refusal _ _ _ _ _ HO HL HP). reflexivity. Qed.
 End paths.
 
 (* the class each protocol hands on for EInsufficient *)
